@@ -26,6 +26,18 @@ CLAIMED = {
             "Runtime monitoring: all 64 predicates over (id, value) as truth tables x exhaustive short write histories x backpressure on/off are run on the real collection; after every write the drained events are judged against the four-row inclusion decision table and the fold of the stream against List with the same predicate; lossy merges are enumerated by parking the consumer at quiescent points. The booking server's ListBookings/PullBookings are checked the same way.",
             "An absent item is never a member of the filtered collection whatever the predicate answers for nil; change times and old values of merged lossy events are not asserted.",
             "DESIGN.md §4 C08"),
+    "C05": ("reference-model monitor: independent leaf-path masked-merge oracle and frame comparison over exhaustive small mask tuples and random tuples",
+            "Runtime monitoring: every (stored, written, update mask, writable mask, reset mask) tuple over a 19-path pool of the all-field-kinds message (masks of <= 2 paths, duplicates and related paths in both orders) and random tuples on four trait messages are run through masks.FieldUpdater and through Value.Set / Collection.Update (writable fields given on the resource, via WithMoreWritableFields or WithAllFieldsWritable); results are compared leaf by leaf with an independent reference: frame outside M∩W unchanged, scalars set or cleared, message/list/map fields per field_mask.proto, reset paths cleared, invalid or out-of-W masks rejected with InvalidArgument and nothing changed.",
+            "An absent message/list/map named by the mask may be cleared or left; switching a oneof arm by a nested path is exempt from the frame; rejection of valid masks with duplicate paths is counted, not judged.",
+            "DESIGN.md §4 C05"),
+    "C09": ("permit-driven consumer + quiescence oracle: bounded-exhaustive op sequences x receive patterns, reference fold with per-id chain checks, blocked-writer detection on goroutine state",
+            "Runtime monitoring: every valid add/update/remove sequence over two ids (Value: set) up to length 4 (thorough 6) x every pattern of consumer receives is executed with each step taken at a quiescent point, so which sends are separated by a receive is enumerated, not scheduled by chance; folded view with chain checks vs List/Get after a final drain; every lossy write must have returned at the quiescent point after it; with backpressure nothing is dropped, order is kept and writers wait beyond the pipeline depth; an undeliverable Value write must return an error.",
+            "Quiescence stands for 'the consumer has received all it will get'; the send-timeout clause waits on the library's real five-second timer and is decided by the returned error; emission order between different ids is not asserted.",
+            "DESIGN.md §4 C09"),
+    "C12": ("recording fakes + map model + forced first-Get windows (hooks) + differential regeneration of the generated routers/wrappers from linked-in descriptors",
+            "Runtime monitoring: every method of every generated router found in the tree is driven with random requests and scripted responses (k messages, header, trailer, error at any position) against recording fake clients per name; registry histories against a map model with the exact change log; concurrent first Gets forced window by window; default-name interceptors over all request types; and the real protoc-gen-router / protoc-gen-wrapper are rebuilt and re-run on the linked-in API descriptors and compared declaration by declaration with the checked-in files. A router or service in the tree without a table entry is reported.",
+            "Unary response headers/trailers and fallback-vs-factory precedence are observed, not judged; regeneration compares go/printer forms (import grouping is a note).",
+            "DESIGN.md §4 C12"),
     "C15": ("online oracle over page walks: concatenation of the pages followed by next_page_token vs the model's full listing, plus hostile inputs under recover / child-process isolation",
             "Runtime monitoring: for each of the seven paged List RPCs, collections of sizes 0-60 and the boundary sizes with random ids (prefixes of each other included) are walked with every page size of the property's list (mixed sizes too), directly and through the wrapped stack; every walk must return each item exactly once in listing order, pages no longer than the effective size, total_size right and a finite chain. Negative sizes and corrupted tokens (truncated, bit-flipped, non-base64, foreign, out-of-range numeric) must be answered with an error status, never a panic or an endless chain.",
             "Collection contents are held fixed while paging; a token that decodes may be honoured; read masks are an extra dimension (keys with suffix mask-without-key).",
